@@ -61,6 +61,10 @@ func genWindow(g *gen, n int, base int64) []evCommit {
 	style := g.intn(6)
 	off := base + int64(g.intn(4))
 	ts := int64(g.intn(3)) * 1000
+	subsec := g.chance(1, 2) // commit timestamps are milliseconds: half the windows are not on whole seconds
+	if subsec {
+		ts += g.pick(0, 1, 100, 500, 900, 999)
+	}
 	for i := 0; i < n; i++ {
 		switch style {
 		case 0: // free
@@ -78,6 +82,9 @@ func genWindow(g *gen, n int, base int64) []evCommit {
 			off += int64(g.intn(3)) - 1
 		}
 		ts += int64(g.intn(3)) * 1000
+		if subsec {
+			ts += g.pick(0, 0, 1, 100, 500, 900, 999)
+		}
 		lag := int64(g.intn(5)) - 1 // -1 = nil
 		cs[i] = evCommit{off: off, ts: ts, lag: lag}
 	}
@@ -106,6 +113,9 @@ func genEval(g *gen) {
 		span := last.ts - w[0].ts
 		nowMs := last.ts + span + g.pick(-2000, -1000, -1, 0, 1, 999, 1000, 1001, 2000, 50000)
 		now := nowMs / 1000
+		if g.chance(1, 3) {
+			now++ // the clock is in whole seconds: approach the boundary from above as well as from below
+		}
 		if g.chance(1, 2) {
 			g.emit("E calc %d %d %d %s %s", now, allowed, cur, fmtCommits(w), fmtInts(bo))
 			continue
